@@ -552,6 +552,23 @@ func Sources(v ssa.Value) []ssa.Value {
 		case *ssa.ChangeInterface:
 			walk(x.X)
 		case *ssa.Slice:
+			// a variadic argument list: slice of a local array whose elements were stored one by one
+			if a, ok := x.X.(*ssa.Alloc); ok {
+				followed := false
+				for _, r := range *a.Referrers() {
+					if ia, ok := r.(*ssa.IndexAddr); ok {
+						for _, rr := range *ia.Referrers() {
+							if st, ok := rr.(*ssa.Store); ok && st.Addr == ia {
+								followed = true
+								walk(st.Val)
+							}
+						}
+					}
+				}
+				if followed {
+					return
+				}
+			}
 			walk(x.X)
 		case *ssa.Extract:
 			out = append(out, v) // keep the extract itself: caller can look at Tuple and Index
